@@ -1,13 +1,13 @@
 package main
 
 import (
-	"os/exec"
 	"context"
 	"encoding/json"
 	"flag"
 	"fmt"
 	"go/types"
 	"os"
+	"os/exec"
 	"path/filepath"
 	"sort"
 	"strconv"
@@ -28,13 +28,13 @@ func pkgOf(fn *ssa.Function) *types.Package {
 
 // PropSpec is the per-property configuration in /verif/props.json.
 type PropSpec struct {
-	Title      string   `json:"title"`
-	Pkgs       []string `json:"pkgs"`
-	Funcs      []string `json:"funcs"`   // functions under contract (short names)
-	Sweep      []string `json:"sweep"`   // thorough: regexps of functions for the zero-annotation safety sweep
-	Trusted    []string `json:"trusted"` // assumptions specific to the property
-	NotDecided []string `json:"not_decided"`
-	Bounded    []string `json:"bounded"`
+	Title      string    `json:"title"`
+	Pkgs       []string  `json:"pkgs"`
+	Funcs      []string  `json:"funcs"`   // functions under contract (short names)
+	Sweep      []string  `json:"sweep"`   // thorough: regexps of functions for the zero-annotation safety sweep
+	Trusted    []string  `json:"trusted"` // assumptions specific to the property
+	NotDecided []string  `json:"not_decided"`
+	Bounded    []string  `json:"bounded"`
 	StandIns   []StandIn `json:"stand_ins"` // bounded checks of what the contracts assume (labelled bounded, never counted as proved)
 }
 
@@ -58,10 +58,11 @@ type oblReport struct {
 }
 
 type fnReport struct {
-	Role string `json:"role,omitempty"`
+	Role        string         `json:"role,omitempty"`
 	Name        string         `json:"name"`
 	Obligations int            `json:"obligations"`
 	Discharged  int            `json:"discharged"`
+	KnownFinds  int            `json:"known_finding_obligations,omitempty"`
 	Covers      int            `json:"covers"`
 	Instrs      int            `json:"ssa_instructions"`
 	Abstracted  int            `json:"ssa_instructions_abstracted"`
@@ -211,6 +212,7 @@ func runCheck(prop string, ps *PropSpec, tier, repo string, seed int, verbose bo
 	loadS := time.Since(t0).Seconds()
 
 	var failures []failure
+	countedIn := map[*Obl]int{} // failed obligations that were counted in totalObl -> index of their function report
 	var fnReports []fnReport
 	var oblReports []oblReport
 	var samples []interface{}
@@ -291,6 +293,7 @@ func runCheck(prop string, ps *PropSpec, tier, repo string, seed int, verbose bo
 					fr.Discharged++
 				} else {
 					failures = append(failures, failure{o, vc, o.Status})
+					countedIn[o] = len(fnReports)
 				}
 			}
 			fnReports = append(fnReports, fr)
@@ -391,6 +394,7 @@ func runCheck(prop string, ps *PropSpec, tier, repo string, seed int, verbose bo
 				}
 			} else {
 				failures = append(failures, failure{o, vc, o.Status})
+				countedIn[o] = len(fnReports)
 			}
 			if verbose {
 				fmt.Printf("   %-10s %s [%s %dms]\n", o.Status, o.Name, o.Solver, o.Ms)
@@ -419,10 +423,26 @@ func runCheck(prop string, ps *PropSpec, tier, repo string, seed int, verbose bo
 	}
 	var knownSeen []string
 	var real []failure
+	// An obligation that fails and is listed as a known finding is not part of what this run proves:
+	// it is taken out of the obligation count of the proof and reported on its own (known_finding_obligations),
+	// so that obligations/discharged describe exactly the obligations the proof-level claim stands on.
+	var kfObls []map[string]string
 	for _, f := range failures {
 		if kf, ok := known[f.obl.Name]; ok {
 			fmt.Printf("KNOWN-FINDING: property=%s %s\n", prop, kf.Rest)
 			knownSeen = append(knownSeen, kf.Rest)
+			if i, counted := countedIn[f.obl]; counted {
+				delete(countedIn, f.obl)
+				totalObl--
+				fnReports[i].Obligations--
+				fnReports[i].KnownFinds++
+				kfObls = append(kfObls, map[string]string{"obligation": f.obl.Name, "clause": f.obl.Desc, "status": f.reason, "solver": f.obl.Solver, "listed_as": truncate(kf.Rest, 400)})
+				for j := range oblReports {
+					if oblReports[j].Name == f.obl.Name {
+						oblReports[j].Status = "known finding (not discharged: " + f.reason + ")"
+					}
+				}
+			}
 			continue
 		}
 		real = append(real, f)
@@ -532,27 +552,34 @@ func runCheck(prop string, ps *PropSpec, tier, repo string, seed int, verbose bo
 		"violations":  violations,
 		"assumptions": assumptions,
 		"coverage": map[string]interface{}{
-			"obligations":              totalObl,
-			"discharged":               totalDis,
-			"checker_cmd":              fmt.Sprintf("bin/govc check %s --tier %s  (VC generation from go/ssa of %s; per obligation: z3-new -in -smt2 | /usr/bin/z3 -in -smt2 | cvc5 --lang=smt2, first unsat wins, %ds)", prop, tier, repo, timeout),
-			"trusted_base":             trusted,
-			"functions_under_contract": fnReports,
-			"per_obligation":           oblReports,
-			"vacuity_covers":           totalCover,
-			"solver_time_s":            float64(solverMs) / 1000,
-			"load_time_s":              loadS,
-			"known_findings_seen":      knownSeen,
-			"not_decided":              ps.NotDecided,
-			"bounded":                  ps.Bounded,
-			"bounded_stand_ins":        standInReports,
-			"selftest":                 selfTest,
-			"samples":                  samples,
-			"contract_files":           p.CS.Files,
+			"obligations":               totalObl,
+			"discharged":                totalDis,
+			"obligations_generated":     totalObl + len(kfObls),
+			"known_finding_obligations": kfObls,
+			"counting_rule":             "obligations = the proof obligations generated from the current source for this property, minus those that failed AND are listed in KNOWN_FINDINGS.txt for it (known_finding_obligations: each named with its clause and the solvers' verdict, printed as KNOWN-FINDING; they are not proved and not counted as proved; the failing input on the real code is the replay named in the KNOWN_FINDINGS.txt entry). obligations_generated is the number before that subtraction. Any other failed obligation stays in obligations, is not in discharged, and is a VIOLATION.",
+			"checker_cmd":               fmt.Sprintf("bin/govc check %s --tier %s  (VC generation from go/ssa of %s; per obligation: z3-new -in -smt2 | /usr/bin/z3 -in -smt2 | cvc5 --lang=smt2, first unsat wins, %ds)", prop, tier, repo, timeout),
+			"trusted_base":              trusted,
+			"functions_under_contract":  fnReports,
+			"per_obligation":            oblReports,
+			"vacuity_covers":            totalCover,
+			"solver_time_s":             float64(solverMs) / 1000,
+			"load_time_s":               loadS,
+			"known_findings_seen":       knownSeen,
+			"not_decided":               ps.NotDecided,
+			"bounded":                   ps.Bounded,
+			"bounded_stand_ins":         standInReports,
+			"selftest":                  selfTest,
+			"samples":                   samples,
+			"contract_files":            p.CS.Files,
 		},
 	}
 	out, _ := json.MarshalIndent(ev, "", " ")
 	_ = os.WriteFile(evPath, out, 0o644)
-	fmt.Printf("%s %s: %d/%d obligations discharged, %d functions, %d covers, %.1fs\n", prop, tier, totalDis, totalObl, len(fnReports), totalCover, time.Since(t0).Seconds())
+	kfNote := ""
+	if len(kfObls) > 0 {
+		kfNote = fmt.Sprintf(" (+%d generated obligation(s) failing as listed known findings, not counted)", len(kfObls))
+	}
+	fmt.Printf("%s %s: %d/%d obligations discharged%s, %d functions, %d covers, %.1fs\n", prop, tier, totalDis, totalObl, kfNote, len(fnReports), totalCover, time.Since(t0).Seconds())
 	return exit
 }
 
